@@ -3,6 +3,7 @@ From Coq Require Import String.
 From Coq Require Import ZArith QArith Qround List Bool.
 From RV Require Import Base.PyNum Frame.Frame Map.Stacker Map.StackerSpec Map.Rate Map.RateFile Proofs.RateProofs.
 From RV Require Import Formats.Timeline Map.RateWrite Proofs.RateWriteProofs.
+From RV Require Proofs.OsuWrite Proofs.OsuWhole.
 From RV Require Formats.Qua Formats.QuaSpec Formats.Osu Formats.OsuSpec Formats.SM Formats.SMSpec Formats.SMWriteDom Formats.BMS
   Formats.BMSSpec Proofs.QuaProofs Proofs.SMProofs Proofs.SMWriteWholeFile Proofs.SMWriteWholeEx Timing.Snapper Generated.Tables.
 Import ListNotations.
@@ -192,13 +193,31 @@ Theorem C13_qua_rate_read_back : forall r c, QuaSpec.wf_chartb false c = true ->
                QuaProofs.ReadSpec d (Some c') /\ QuaSpec.wf_chartb false c' = true.
 Proof. exact QuaRateProofs.qua_rate_read_back. Qed.
 
-(* ---- osu, PARTIAL: C01's whole-file writer theorem does not exist yet (line-level theorems + per-run oracle), so the
-   statement is against C01's write oracle: IF the written text of the rated chart satisfies OsuSpec.write_specb THEN it is
-   well-formed and denotes (OsuRateProofs.survives): the same notes up to order with kind and column, start and end within
-   less than 1 ms of time / r; tempo points at exactly time / r with bpm * r (within the oracle's 1e-9 relative allowance
-   for float printing); sample events within less than 1 ms of time / r with file and volume; SVs at time / r.
-   Missing: forall c in C01's domain, write_specb 0 c ut ua (rendered osu_write c) = true -- and C01's written_chart must
-   truncate PreviewTime (today write_specb is false for every chart with a fractional preview, see C13_example_osu_fractional_preview). ---- *)
+(* ---- osu: by composition with C01's whole-file writer theorem (Proofs/OsuWhole.v osu_write_denotes; the printers of floats
+   and ints are oracle parameters: any printer whose text parses back to the printed value on the numbers it is asked to
+   print).  For every chart and rate r <> 0 whose RATED chart lies in C01's write domain wdom (decidable; a fractional preview
+   point is inside it - PreviewTime is truncated like every written time; closure of the domain under rate is not proved):
+   the rated chart is written, the text is well-formed, every attribute present, and it denotes (OsuRateProofs.survives): the
+   same notes up to order with kind and column, start and end within less than 1 ms of time / r; tempo points at exactly
+   time / r with bpm * r (within the oracle's 1e-9 relative allowance); sample events within less than 1 ms of time / r
+   with file and volume; SVs at time / r. ---- *)
+Theorem C13_osu_rate_survives_write : forall (show_num show_inum : Q -> Text.text) (printable iprintable : Q -> bool),
+  (forall q, printable q = true -> Text.parse_dec (show_num q) = Some (Qred q)) ->
+  (forall q, iprintable q = true -> Text.parse_int (show_inum q) = Some (Qfloor q)) ->
+  forall r c ut ua, ~ r == 0 -> OsuWrite.wdom printable iprintable (OsuRate.osu_chart_rate r c) ut ua = true ->
+  exists text d, OsuWrite.written show_num show_inum (OsuRate.osu_chart_rate r c) ut ua = Some text /\
+                 OsuSpec.osu_denote text = Some d /\ OsuSpec.wf_osu_text text = true /\ OsuSpec.all_present d = true /\
+                 OsuRateProofs.survives r c d.
+Proof. exact OsuRateProofs.osu_rate_survives_write. Qed.
+(* the instance without hypotheses: six-decimal fixed point for floats, str(int) for ints *)
+Theorem C13_osu_rate_survives_write_dec6 : forall r c ut ua, ~ r == 0 ->
+  OsuWhole.wdom6 (OsuRate.osu_chart_rate r c) ut ua = true ->
+  exists text d, OsuWhole.written6 (OsuRate.osu_chart_rate r c) ut ua = Some text /\
+                 OsuSpec.osu_denote text = Some d /\ OsuSpec.wf_osu_text text = true /\ OsuSpec.all_present d = true /\
+                 OsuRateProofs.survives r c d.
+Proof. exact OsuRateProofs.osu_rate_survives_write_dec6. Qed.
+(* the oracle-level steps of that composition (kept: they hold for ANY text satisfying C01's write oracle, e.g. reamber's own
+   output judged per run): from write_specb, and from its five list conjuncts alone *)
 Theorem C13_osu_rate_survives_write_partial : forall r c ut ua written, ~ r == 0 ->
   OsuSpec.write_specb 0 (OsuRate.osu_chart_rate r c) ut ua written = true ->
   exists d, OsuSpec.osu_denote written = Some d /\ OsuSpec.wf_osu_text written = true /\ OsuRateProofs.survives r c d.
@@ -288,13 +307,13 @@ Example C13_example_osu_write :
   | None => False
   end.
 Proof. exact OsuRateProofs.osu_example_survives. Qed.
-(* the same chart with a preview point at 12345 ms: written as int(6172.5) = 6172; C01's oracle (written_chart does not
-   truncate PreviewTime) rejects the text for that reason alone - hence the list version of the partial theorem *)
+(* the same chart with a preview point at 12345 ms: written as int(6172.5) = 6172, accepted by C01's oracle; both rated
+   charts are in the domain of C13_osu_rate_survives_write_dec6 *)
 Example C13_example_osu_fractional_preview :
   match Osu.osu_write (OsuRate.osu_chart_rate 2 OsuRateProofs.wit_chart_pv) (Text.t "Re:Zero"%string) [] with
   | Some wl =>
       let written := Osu.file_lines (OsuProofs.render wl) in
-      OsuSpec.write_specb 0 (OsuRate.osu_chart_rate 2 OsuRateProofs.wit_chart_pv) (Text.t "Re:Zero"%string) [] written = false
+      OsuSpec.write_specb 0 (OsuRate.osu_chart_rate 2 OsuRateProofs.wit_chart_pv) (Text.t "Re:Zero"%string) [] written = true
       /\ match OsuSpec.osu_denote written with
          | Some d => OsuRateProofs.lists_written d (OsuRate.osu_chart_rate 2 OsuRateProofs.wit_chart_pv) = true
                      /\ nth OsuRate.IX_PREVIEW (OsuSpec.d_meta d) None = Some (Osu.MNum 6172)
@@ -302,6 +321,10 @@ Example C13_example_osu_fractional_preview :
   | None => False
   end.
 Proof. exact OsuRateProofs.osu_example_fractional_preview. Qed.
+Example C13_example_osu_in_domain :
+  OsuWhole.wdom6 (OsuRate.osu_chart_rate 2 OsuRateProofs.wit_chart) (Text.t "Re:Zero"%string) [] = true /\
+  OsuWhole.wdom6 (OsuRate.osu_chart_rate 2 OsuRateProofs.wit_chart_pv) (Text.t "Re:Zero"%string) [] = true.
+Proof. exact OsuRateProofs.osu_example_in_domain. Qed.
 (* StepMania / BMS: the formats' own non-vacuity charts, rated, are in the domains of the two theorems *)
 Example C13_example_sm_write :
   SMWriteWholeFile.c03_domb (SMRate.sm_set_rate 2 SMWriteWholeEx.c03_ex_set) = true /\
